@@ -295,6 +295,10 @@ def in_search_phase(cx):
              [{"pos": b, "depth": D}, {"pos": a, "depth": D}, {"pos": a, "depth": D - 1, "newgame": True}, {"pos": b, "depth": D - 1}]},
             # many short searches: the generation moves on quickly
             {"hash": 1, "tag": "short", "searches": [{"pos": (a, b, c)[i % 3], "depth": 2 + (i % 3)} for i in range(24 if q else 60)]},
+            # the Hash option between searches: another size (empties), the same size again (keeps), back (empties)
+            {"hash": 1, "tag": "resize", "searches": [{"pos": b, "depth": D - 1}, {"pos": b, "depth": D - 2, "resize": 2},
+                                                      {"pos": b, "depth": D - 1, "resize": 2}, {"pos": c, "depth": D - 2},
+                                                      {"pos": b, "depth": D - 1, "resize": 1}, {"pos": b, "depth": D - 2}]},
             # a search stopped inside the tree, then the same position again on the same table
             {"hash": 1, "tag": "stopped", "searches": [{"pos": c, "depth": D + 1, "stopk": 2}, {"pos": c, "depth": D - 1}]},
         ]
@@ -339,7 +343,7 @@ def in_search_phase(cx):
     if not complete:
         chk.drift.append({"what": "in-search-insert-sites-the-hooks-do-not-cover",
                           "detail": "the tables counted more inserts than the search's recorded call sites made"})
-    for k in ("tables", "resets", "newsearches", "fills", "inserts", "forced", "free", "free_other_key", "probes", "hits",
+    for k in ("tables", "resets", "resizes", "newsearches", "fills", "inserts", "forced", "free", "free_other_key", "probes", "hits",
               "hits_earlier_search", "misses_other_key"):
         if tot.get(k, 0) == 0:
             raise ToolError("vacuous in-search run: no '%s' in %s" % (k, tot))
